@@ -66,7 +66,8 @@ Definition plans_empty_command (cl : cmdline) : bool := existsb no_words (cl_cmd
     [>] and not an input-redirection operator. *)
 Definition safe_word (t : token) : bool :=
   negb (tag_eqb (fst t) TNone) ||
-  (negb (has_char c_gt (snd t)) && negb (str_eqb (snd t) s_lt) && negb (str_eqb (snd t) s_lt3)).
+  (negb (has_char c_gt (snd t)) && negb (str_eqb (snd t) s_lt) && negb (str_eqb (snd t) s_lt3)
+   && negb (starts_with_c c_lt (snd t))).   (* /repo 543507e: an untagged <file is split, it is no proper word *)
 
 (** * Guarded look-ups of the tokenizer, with the Rust index arithmetic *)
 
